@@ -475,18 +475,18 @@ def _():
     names = [a.arg for a in fn.args.args]
     if names != ["self", "cluster", "force_local"]:
         raise SiteError(f"signature changed: {names}")
-    for need in (".submitHpc", ".handleCompletion"):
+    for need in (".submitHpc", ".handleCompletion", ".runHook .setup"):
         if _count(w, need) != 1:
-            raise SiteError(f"expected exactly one {need}")
+            raise SiteError(f"expected exactly one {need} (moved into a helper?)")
     return _program("submitJobsProg", "`JobSubmitter.submit_jobs`: relevant statements in source order", w.steps)
 
 
 @site("lifecycle.handleCompletion", "Lifecycle", P)
 def _():
     fn, w = _walk(JS, "JobSubmitter._handle_completion")
-    for need in (".listResults", ".computeMissing", ".writeSummary", ".markComplete"):
+    for need in (".listResults", ".computeMissing", ".writeSummary", ".markComplete", ".runHook .teardown"):
         if _count(w, need) != 1:
-            raise SiteError(f"expected exactly one {need}")
+            raise SiteError(f"expected exactly one {need} (moved into a helper?)")
     return (
         "/-- `if len(self._results) != self._config.get_num_jobs():` — some job has no result: compute `missing_jobs` -/\n"
         f"def resultsIncomplete (numResults numJobs : Nat) : Bool :=\n  {w.defs['resultsIncomplete']}\n\n"
@@ -497,8 +497,9 @@ def _():
 @site("lifecycle.runJobs", "Lifecycle", P)
 def _():
     fn, w = _walk(JR, "JobRunner.run_jobs")
-    if _count(w, ".runQueue") != 1:
-        raise SiteError("expected exactly one call of self._run_jobs")
+    for need in (".runQueue", ".runHook .nodeSetup", ".runHook .nodeTeardown"):
+        if _count(w, need) != 1:
+            raise SiteError(f"expected exactly one {need} (moved into a helper?)")
     # `_run_jobs` reports Status.GOOD on every path (the CLI's try-submit depends on it)
     inner = find_def(JR, "JobRunner._run_jobs")
     rets = [s for s in walk_stmts(inner) if isinstance(s, ast.Return)]
@@ -519,8 +520,9 @@ def _():
 @site("lifecycle.runJobsCli", "Lifecycle", P)
 def _():
     fn, w = _walk(RJ, "run_jobs")
-    if _count(w, ".runJobs") != 1:
-        raise SiteError("expected exactly one call of mgr.run_jobs")
+    for need in (".runJobs", ".trySubmit"):
+        if _count(w, need) != 1:
+            raise SiteError(f"expected exactly one {need}")
     helper = find_def(RJ, "_try_submit_jobs")
     cmd = the(assigns(helper, "try_submit_cmd"), "try_submit_cmd = …").value
     if src(cmd) != "f'jade try-submit-jobs {output}'":
